@@ -99,14 +99,14 @@ Definition failing (cs : list case) : list (N * N * N) := flat_map check_case cs
    [defaults when absent or null; the cluster component stays as it was; then the environment]).
    Keys: 0 = the cluster section; 1..13 the other real components; 100.. component names nobody knows inside a section
    type the Manager knows; 200.. members of unknown top-level names.
-   Observed: the Manager accepted; the saved file, per key: (present, null, equal to what the component saves on its
+   Observed: the Manager accepted; Manager.Validate() of the accepted configuration; the saved file, per key: (present, null, equal to what the component saves on its
    own, equal to the raw input); the saved file loads again (same registered set) into components that save the same;
    the displayable form: per key in it, for every member named like a secret at any depth: does it show the marker;
    the planted secrets found in the bytes of the displayable form. *)
 Definition mentry := (N * bool * N * bool)%type.
 Definition msaved := (N * (bool * bool * bool * bool))%type.
 Definition mdisp := (N * list bool)%type.
-Definition mcase := (N * (N * bool * list mentry * bool * list msaved * bool * option (list mdisp) * list N))%type.
+Definition mcase := (N * (N * bool * list mentry * bool * bool * list msaved * bool * option (list mdisp) * list N))%type.
 
 Definition kname (n : N) : string := String (Ascii.ascii_of_N n) EmptyString.
 Definition kk (n : N) : skey :=
@@ -144,7 +144,7 @@ Definition memN (x : N) (l : list N) : bool := existsb (N.eqb x) l.
 Definition same_keys (a b : list N) : bool := forallb (fun x => memN x b) a && forallb (fun x => memN x a) b.
 
 Definition mmodel_eqb (c : mcase) : bool :=
-  let '(_, (mode, wf, es, ok, saved, _, disp, _)) := c in
+  let '(_, (mode, wf, es, ok, _, saved, _, disp, _)) := c in
   let reg := mreg es in
   let m0 := mkMgr (map (fun _ => []) reg) None in
   let r := match mode with
@@ -167,14 +167,19 @@ Definition unreg_kept (saved : list msaved) (e : mentry) : bool :=
   e_reg e || N.eqb (e_status e) 0 || negb (N.ltb (e_key e) 200) ||
   (let '(present, null, _, eq_in) := find_saved (e_key e) saved in
    present && (if N.eqb (e_status e) 1 then null else eq_in)).
+(* a section that stands in the file and that its registered component refuses on its own: the Manager must not accept *)
+Definition section_refused_ok (e : mentry) : bool :=
+  negb (e_reg e) || e_ok e || N.eqb (e_status e) 0 || N.eqb (e_status e) 1.
 (* the observed displayable form as a file of the model: a member named like a secret that does not show the marker is
    rendered as such, so that the same boolean the theorem manager_display_hidesb is about is evaluated on it *)
 Definition disp_file (dl : list mdisp) : file :=
   map (fun '(k, flags) => (kk k, SDoc (map (fun b : bool => ("secret", if b then hidden_marker else VS "=shown")) flags))) dl.
 
 Definition mcheck (c : mcase) : list (N * N * N) :=
-  let '(id, (mode, wf, es, ok, saved, reload, disp, leaks)) := c in
+  let '(id, (mode, wf, es, ok, valid, saved, reload, disp, leaks)) := c in
   ((if mmodel_eqb c then [] else [(id, 1%N, 0%N)])
+   ++ (if ok && negb valid then [(id, 10%N, 0%N)] else [])
+   ++ (if ok && negb (forallb section_refused_ok es) then [(id, 17%N, 0%N)] else [])
    ++ (if ok && negb reload then [(id, 11%N, 0%N)] else [])
    ++ (if ok && negb (forallb (unreg_kept saved) es) then [(id, 15%N, 0%N)] else [])
    ++ (match leaks with [] => [] | _ => [(id, 12%N, 0%N)] end)
